@@ -38,6 +38,63 @@ def flag_guards(body, bb):
   return out
 
 
+def nested_flag_dependence(body, sink_bb):
+  """A branch that can bypass the write and is itself evaluated only on one side of an optional-flag test (e.g. a `continue` inside
+  `if index_addresses { .. }`): compare, for every flag test that reaches the write, which of the write's controlling branches can be
+  met within the same loop iteration from each side of the test.  A difference means the write is control-dependent on the flag."""
+  from ..facts import describe_cond
+  from .common import reaches_avoiding
+  out = []
+  dom = body.dominators()
+  preds = body.preds()
+  loops = {}
+  for u in body.reachable_from(0):
+    for v in body.succ(u):
+      if v in dom.get(u, ()):
+        nodes = loops.setdefault(v, {v})
+        st = [u]
+        while st:
+          x = st.pop()
+          if x in nodes:
+            continue
+          nodes.add(x)
+          st.extend(preds.get(x, ()))
+  errs = {c.bb for c in body.calls if c.is_('re:FromResidual>::from_residual$')}
+  for fb in body.reachable_from(0):
+    t = body.blocks[fb]['t']
+    if t['k'] != 'switch':
+      continue
+    d = fmt_desc(describe_cond(body, t['d']))
+    if not any(x in d for x in OPTIONAL) or d.startswith('discr('):
+      continue
+    edges = body.switch_edges(fb)
+    if len(edges) != 2:
+      continue
+    avoid = {h for h, nodes in loops.items() if fb in nodes} | errs
+    if not any(tgt == sink_bb or reaches_avoiding(body, tgt, sink_bb, avoid) for _, tgt in edges):
+      continue
+    # branches met from each side, within this iteration, that have one edge from which the write is out of reach (within the iteration)
+    sides = []
+    for lab, tgt in edges:
+      met = set()
+      for x in body.reachable_from(tgt):
+        tx = body.blocks[x]['t']
+        if tx['k'] != 'switch' or x == fb or not (x == tgt or reaches_avoiding(body, tgt, x, avoid | {sink_bb})):
+          continue
+        ex = body.switch_edges(x)
+        can = [(t2 == sink_bb or reaches_avoiding(body, t2, sink_bb, avoid)) for _, t2 in ex]
+        if any(can) and not all(can):
+          dx = fmt_desc(describe_cond(body, tx['d']))
+          if not dx.startswith('discr(Try::branch('):
+            met.add(x)
+      sides.append(frozenset(met))
+    if sides[0] != sides[1]:
+      extra = sorted(sides[0] ^ sides[1])
+      names = [fmt_desc(describe_cond(body, body.blocks[x]['t']['d']))[:60] for x in extra]
+      out.append(f'{d}: only on one side of this test can the write be bypassed by {names}')
+  return out
+
+
 def run(ctx):
   F = ctx.facts
   T = TableId(F)
@@ -60,7 +117,7 @@ def run(ctx):
       continue
     n += 1
     ctx.analysed(b)
-    fg = flag_guards(b, c.bb)
+    fg = flag_guards(b, c.bb) + nested_flag_dependence(b, c.bb)
     ctx.ob('R15.1', b.n, f'{kind} into {"/".join(sorted(tabs))} does not depend on an optional index flag', not fg,
            f'this write happens or not depending on {fg}: the inscription / rune result differs between index configurations', where(b, c.line))
   ctx.floor('R15.1', 'inscription / rune table writes in the updaters', n, 18)
